@@ -103,17 +103,23 @@ def fragile(ck, fc):
     reals); replay the real code there in float64 over a fixed fan of configurations with
     EXACT comparisons."""
     fails, n = [], 0
-    for uval in (0.0, 1.0):
+    # the generator's own unit samples are fed (smallest: 0, largest: 1 - 2^-53), so that uniform(0, 1 + eps) and (1 + eps) * random_sample() see
+    # the same number and the uniform number that reaches the formula is exactly 0.0 resp. 1.0
+    rmax = float(np.nextafter(1.0, 0.0))
+    for uval, rval in ((0.0, 0.0), (1.0, rmax)):
         for p in (0.0, 0.5, 1.0, 1.5, 2.0, 2.5, 3.0, 4.0):
-            for lo, hi in ((6.0, 12.0), (6.0, 7.0), (8.0, 10.5), (11.0, 12.0), (7.3, 11.9)):
-                v = {"u": np.array([uval, 0.5]), "p": p, "lo": lo, "hi": hi, "logE": 8.0}
+            for lo, hi in ((6.0, 12.0), (6.0, 7.0), (8.0, 10.5), (11.0, 12.0), (7.3, 11.9), (6.25, 9.0), (6.5, 11.0), (9.0, 12.0)):
+                v = {"u": np.array([rval, 0.5]), "p": p, "lo": lo, "hi": hi, "logE": 8.0}
                 n += 1
                 try:
+                    fc.rng_unit = True
                     with np.errstate(all="ignore"):
                         out = fc.run_native(v)
                     L = float(out[0][0])
                 except Exception as ex:
                     continue  # exceptional exits are the business of the noraise obligations
+                finally:
+                    fc.rng_unit = False
                 if not (lo <= L <= hi):
                     fails.append({"obligation": "spectra:Spectra.__call__[power]/fragile.range", "clause": "lower <= log_e_nu <= upper (exact, float64)",
                                   "input": {"u": uval, "p": p, "lo": lo, "hi": hi}, "observed": {"log_e_nu": L, "excess": max(L - hi, lo - L)},
@@ -195,6 +201,50 @@ def configured(ck):
             if not ok:
                 fails.append({"obligation": "bounded.configured.mono", "clause": "a mono-energetic spectrum yields exactly the configured log-energy (compared in double precision), one per event",
                               "input": {"log_nu_energy": val, "events": nev}, "observed": {"values": [float(x) for x in L.ravel()[:3]], "dtype": str(L.dtype), "shape": list(L.shape)}})
+    # history: a result the caller has changed in place does not come back from a later call with the same arguments
+    for val, nev in ((8.5, 4), (9.25, 1)):
+        n += 1
+        cfg = NssConfig()
+        cfg.simulation.spectrum = Simulation.MonoSpectrum(log_nu_energy=val)
+        first = Spectra(cfg)(nev)[0]
+        try:
+            first += 9.0
+        except Exception:
+            pass
+        cfg_b = NssConfig()
+        cfg_b.simulation.spectrum = Simulation.MonoSpectrum(log_nu_energy=val)
+        again = np.asarray(Spectra(cfg_b)(nev)[0], dtype=float)
+        if again.shape != (nev,) or not np.all(again == val):
+            fails.append({"obligation": "bounded.configured.history", "clause": "a mono-energetic call returns the configured energy whatever the caller did to the array an earlier call returned",
+                          "input": {"log_nu_energy": val, "events": nev, "history": "call; result += 9 (in place, by the caller); call again with the same configuration values"}, "observed": {"second call": again.tolist()}})
+    # the diagnostic plot of the stage is an observer: requesting it changes neither the returned energies nor the stored column
+    try:
+        import matplotlib
+
+        matplotlib.use("Agg", force=True)
+        import warnings
+
+        import matplotlib.pyplot as plt
+
+        for mk in (lambda: Simulation.MonoSpectrum(log_nu_energy=8.5), lambda: Simulation.PowerSpectrum(index=2.0, lower_bound=7.0, upper_bound=9.0)):
+            outs = []
+            for plot in (None, "spectra_histogram", ["spectra_histogram"]):
+                cfgp = NssConfig()
+                cfgp.simulation.spectrum = mk()
+                stored = {}
+                with harness.patched_rng([u.copy()]), np.errstate(all="ignore"), warnings.catch_warnings():
+                    warnings.simplefilter("ignore")
+                    Lp = Spectra(cfgp)(len(u), plot=plot, store=lambda nm, cols: stored.update(zip(nm, cols)))[0]
+                    plt.close("all")
+                outs.append((np.array(Lp, dtype=float), np.array(stored.get("log_e_nu", Lp), dtype=float)))
+            n += 2
+            for (Lp, st_), req in zip(outs[1:], ("spectra_histogram", ["spectra_histogram"])):
+                if not (np.array_equal(Lp, outs[0][0]) and np.array_equal(st_, outs[0][1])):
+                    fails.append({"obligation": "bounded.configured.history", "clause": "requesting the stage's diagnostic plot changes neither the returned energies nor the stored column",
+                                  "input": {"plot": req, "spectrum": type(mk()).__name__, "events": len(u)}, "observed": {"returned with plot": Lp.tolist(), "returned without": outs[0][0].tolist(), "stored with plot": st_.tolist()}})
+                    break
+    except ImportError:
+        pass
     return {"evaluations": n, "failures": fails}
 
 
@@ -249,7 +299,7 @@ def run(ck):
                       replay_out=None if ok else fc.clause_replay({"u": umax, "p": 2.0, "lo": 6.0, "hi": 12.0}, "post.power.range", c_range))
             break
         break
-    ck.bounded_run("fragile-guard replay u in {0,1}", lambda: fragile(ck, fc), design="u in {0,1} x 8 indices x 5 bound pairs, exact float64 comparison")
+    ck.bounded_run("fragile-guard replay u in {0,1}", lambda: fragile(ck, fc), design="uniform number exactly 0.0 / 1.0 (generator unit samples 0 and 1 - 2^-53) x 8 indices x 8 bound pairs, exact float64 comparison")
     ck.bounded_run("real configuration classes: index as float / int / text, mono energies", lambda: configured(ck),
                    design="19 spellings of the index (Python and numpy scalars) x 2 bound pairs x 5 fixed uniform numbers (CDF identity to 1e-9, bounds, normalisation); 7 mono energies x {1, 3} events, exact float64 equality")
     # vacuity: a wrong claim must be refuted
